@@ -122,6 +122,8 @@ def ab_forms(stds, typ, full=False):
     out = []; done = False
     big = max(max(s.ports) for s in stds) >= 3
     first = 'ab' if ((typ in (T8, U8) or full) and not big) else 'abk'
+    if big:        # 3-port calibrations: the LU of a reference matrix scaled by a free factor does not finish (240 s+): constant reference matrices only
+        return [with_form(s, 'abc') for s in stds]
     for s in stds:
         if not done and len(s.ports) >= 2: out.append(with_form(s, first)); done = True
         elif not done and s is stds[-1]: out.append(with_form(s, first)); done = True
@@ -212,7 +214,6 @@ def configs(tier):
         for rows, cols in shapes(typ, maxp):
             fam = families(typ, rows, cols)
             for tag, stds in fam.items():
-                if max(rows, cols) == 3 and tag not in ('base', 'ab', 'mapped', 'swapped', 'abbrev', 'abbrev-swapped'): continue
                 out.append(Config(typ, rows, cols, stds, name=name_of(typ, rows, cols, tag)))
     return out
 
